@@ -15,7 +15,7 @@ RULE = ('exhaustive part: every (target over {A,G} of length 0..9, query of leng
 ASSUMPTIONS = [
     'reference occurrences are computed on the plain-data model (character comparison + modification multiset per position)',
     'a global static rule denotes modifications of its target residues / termini: target and query are compared with their rules written out, in the ordered search as in the unordered test (a global isotope label is compared literally, as the documented examples do)',
-    'random part: residue, terminal, isotope-label and static-rule annotations only (the property is silent on intervals, labile and unknown-position modifications)',
+    'random part: residue, terminal, isotope-label, static-rule and interval annotations (the property is silent on labile and unknown-position modifications); the modifications of the target on a stretch that cuts through an interval are those of the documented slice: the interval clipped to the stretch (span_to_sequence(\'(PEPT)IDE\', (1, 6, 0)) == \'(EPT)ID\')',
 ]
 
 
@@ -107,7 +107,7 @@ def _occurrences(target, query):
     qp = model.sorted_proj(model.expected(model.expand_static(query)))
     out = []
     for i in model.find_all(target['seq'], query['seq']):
-        sl = model.expand_static(model.m_slice(target, i, i + L))
+        sl = model.expand_static(model.m_slice_clip(target, i, i + L))
         if model.sorted_proj(model.expected(sl)) == qp:
             out.append(i)
     return out
@@ -214,11 +214,11 @@ def _simple_mod():
 
 
 def mod_strategy():
-    target_s = gen.pep_model(alphabet='AG', min_len=1, max_len=14, kinds=('internal', 'nterm', 'cterm', 'isotope', 'static'),
+    target_s = gen.pep_model(alphabet='AG', min_len=1, max_len=14, kinds=('internal', 'nterm', 'cterm', 'isotope', 'static', 'intervals'),
                              mod_strategy=_simple_mod(), mod_list=st.lists(_simple_mod(), min_size=1, max_size=2),
                              allow_empty=False, rule_targets='AG', isotopes=['13C', '15N'])
     target_l = gen.pep_model(alphabet='ACDEGKLMPST', min_len=1, max_len=40,
-                             kinds=('internal', 'nterm', 'cterm', 'isotope', 'static'),
+                             kinds=('internal', 'nterm', 'cterm', 'isotope', 'static', 'intervals'),
                              mod_strategy=_simple_mod(), mod_list=st.lists(_simple_mod(), min_size=1, max_size=2),
                              allow_empty=False, isotopes=['13C', '15N'])
 
@@ -238,7 +238,7 @@ def mod_strategy():
         for _ in range(draw(st.integers(1, 3))):
             i = draw(st.integers(0, n - 1))
             j = draw(st.integers(i + 1, min(n, i + 6)))
-            q = model.m_slice(target, i, j)
+            q = model.m_slice_clip(target, i, j)
             kind = draw(st.sampled_from(['cut', 'cut', 'cut', 'drop-mod', 'add-mod', 'residue', 'strip-global', 'explicit-static']))
             if kind == 'drop-mod' and q['internal']:
                 q['internal'].pop(draw(st.integers(0, len(q['internal']) - 1)))
